@@ -14,7 +14,18 @@ fn with_imm(op: &Op, w: i64) -> Op {
 
 fn presult(bytes: &[u8]) -> (String, Option<Vec<Op>>) {
     let b = bytes.to_vec();
-    match catch_unwind(move || asm::from_bytes(b.iter().copied()).collect::<Result<Vec<_>, _>>()) {
+    let r = catch_unwind(move || asm::from_bytes(b.iter().copied()).collect::<Result<Vec<_>, _>>());
+    // the same bytes through iterators that do not know their length (a filter, a generator function, a chain of
+    // one-byte pieces): the result must not depend on where the bytes come from
+    let (b2, b3, b4) = (bytes.to_vec(), bytes.to_vec(), bytes.to_vec());
+    let others = [
+        catch_unwind(move || asm::from_bytes(b2.iter().copied().filter(|_| true)).collect::<Result<Vec<_>, _>>()),
+        catch_unwind(move || { let mut i = 0; asm::from_bytes(std::iter::from_fn(move || { let x = b3.get(i).copied(); i += 1; x })).collect::<Result<Vec<_>, _>>() }),
+        catch_unwind(move || asm::from_bytes(b4.iter().flat_map(|x| std::iter::once(*x))).collect::<Result<Vec<_>, _>>()),
+    ];
+    let key = |r: &std::thread::Result<Result<Vec<Op>, asm::FromBytesError>>| match r { Ok(Ok(ops)) => format!("ok {:?}", ops), Ok(Err(e)) => format!("err {:?}", e), Err(_) => "panic".to_string() };
+    if others.iter().any(|o| key(o) != key(&r)) { return ("PRPanic (* the result depends on the kind of byte iterator *)".into(), None); }
+    match r {
         Ok(Ok(ops)) => (format!("(PROk {})", coq_ops(&ops)), Some(ops)),
         Ok(Err(asm::FromBytesError::InvalidOpcode(e))) => (format!("(PRInvalid {})", e.0), None),
         Ok(Err(asm::FromBytesError::NotEnoughBytes(_))) => ("PRNotEnough".into(), None),
@@ -237,7 +248,8 @@ fn mapped_case(bytes: &[u8]) -> (String, serde_json::Value) {
             let m2 = m.clone();
             let all: Vec<Op> = catch_unwind(move || m2.ops().collect()).unwrap_or_default();
             let n = all.len();
-            let rnd: Vec<Option<Op>> = (0..n + 2).map(|i| { let m3 = m.clone(); catch_unwind(move || m3.op(i)).unwrap_or(None) }).collect();
+            // a panic of op(i) is recorded as an operation no program of the case contains
+            let rnd: Vec<Option<Op>> = (0..n + 2).map(|i| { let m3 = m.clone(); catch_unwind(move || m3.op(i)).unwrap_or(Some(Op::Stack(asm::Stack::Push(-987654321987)))) }).collect();
             (borrowed_ok, "(PROk [])".to_string(), idx, all, rnd)
         }
         Ok(Err(asm::FromBytesError::InvalidOpcode(e))) => (false, format!("(PRInvalid {})", e.0), vec![], vec![], vec![]),
